@@ -99,6 +99,12 @@ func runnerCases(rng *rand.Rand, n int, emit core.Emit) {
 		}
 		emit("runner", offsets, strings.Join(init, ","), "24")
 	}
+	// contention: another writer holds the server's lock while the probe's outcome is being committed (the commit waits
+	// through the lock's back-off, longer than twice the probe timeout): the outcome must still be recorded
+	for _, ms := range []int{150, 250} {
+		emit("runner", "1+2", fmt.Sprintf("report|%s|10481|00000001|%s|3,hold|%s|%d", a1, hexs("srv"), a1, ms), "24")
+		emit("runner", "-", fmt.Sprintf("call|add!%s/10481/144/1/z!refuse,call|penq!%s!10481!0!1!1!z!z,hold|%s|%d", a1, a1, a1, ms), "24")
+	}
 	// a backlog of nothing but expired probes
 	emit("runner", "1+2", "call|penq!9.9.9.1:1!10480!1!0!1!z!"+fmt.Sprint(world.Epoch.UnixNano()+256)+",call|penq!9.9.9.2:1!10480!0!0!1!z!"+fmt.Sprint(world.Epoch.UnixNano()+512)+",adv1000000000", "24")
 }
@@ -147,6 +153,22 @@ func gen(rng *rand.Rand, tier core.Tier, emit core.Emit) {
 		ev := fmt.Sprintf("%s%s0:%d,e", strings.Repeat("c0,", c), []string{"xb", "xa", "yb", "ya"}[rng.Intn(4)], rng.Intn(12))
 		follow := []string{fmt.Sprintf("@report|%s|10481|00000001|%s|5", a1, hexs("srv")), "@pop|3|fail", "@pop|3|ok:10481:" + hexs("y") + ":1", "@renew|00000001|1.1.1.1"}[rng.Intn(4)]
 		emit("uc", init, sc.client+","+follow, ev+",t3000000000,r1")
+	}
+	// a heartbeat (or keepalive) commits while a probe on its LAST attempt is being recorded: the final-failure
+	// transformation must be applied to the latest record (the mark goes: nothing is queued any more)
+	for goal := 0; goal < 2; goal++ {
+		st := 2 | 4 | 128 // master|info|port_retry
+		port := 10480
+		if goal == 0 {
+			st = 2 | 4 | 64 | 16 // master|info|port|details_retry
+			port = 10481
+		}
+		init := fmt.Sprintf("call|add!%s/10481/%d/1/z!refuse,call|insadd!00000001!%s,call|penq!%s!%d!%d!2!2!z!z", a1, st, a1, a1, port, goal)
+		for _, other := range []string{fmt.Sprintf("@report|%s|10481|00000001|%s|5", a1, hexs("srv")), "@renew|00000001|1.1.1.1"} {
+			for k := 0; k <= 3; k++ {
+				emit("uc", init, "pop|1|fail,"+other, strings.Repeat("c0,", k)+"r1,r0")
+			}
+		}
 	}
 	// the prober resolves the fresh probe before the mark is committed (success / retry)
 	for _, outcome := range []string{"ok:10481:" + hexs("q") + ":4", "fail"} {
